@@ -45,6 +45,58 @@ func runFDExitState(c *core.Ctx) {
 			return ok && an.IsMethodNamed(an.CalleeFunc(info, call), an.PkgResources, "Monitor", "setState") && len(call.Args) == 2 && an.ObjOf(info, call.Args[1]) == st
 		})
 	}
+	// a state argument may also be computed by a helper of the package whose every return is a state constant
+	// (e.g. exitState(err)): helperReturns lists (constant, the return is reached only when the parameter bound to
+	// errVar is nil) for each of its returns
+	type helperRet struct {
+		st      types.Object
+		nilOnly bool
+	}
+	var errVarObj types.Object
+	helperReturns := func(arg ast.Expr) ([]helperRet, bool) {
+		call, ok := an.Unparen(arg).(*ast.CallExpr)
+		if !ok {
+			return nil, false
+		}
+		h := e.Ix.FuncOf(an.CalleeFunc(info, call))
+		if h == nil || h.Pkg != pk || h.Body() == nil {
+			return nil, false
+		}
+		var param types.Object
+		if sig, ok := h.Obj.Type().(*types.Signature); ok {
+			for i := 0; i < sig.Params().Len() && i < len(call.Args); i++ {
+				if errVarObj != nil && an.ObjOf(info, call.Args[i]) == errVarObj {
+					param = sig.Params().At(i)
+				}
+			}
+		}
+		hg := e.Graph(h)
+		var out []helperRet
+		for _, r := range hg.FindAtoms(func(a ast.Node) bool { _, is := a.(*ast.ReturnStmt); return is }) {
+			rs := r.(*ast.ReturnStmt)
+			if len(rs.Results) != 1 {
+				return nil, false
+			}
+			k, isConst := an.ObjOf(info, rs.Results[0]).(*types.Const)
+			if !isConst {
+				return nil, false
+			}
+			nilOnly := false
+			if param != nil {
+				for _, cd := range hg.CondAtoms(func(ex ast.Expr) bool {
+					be, ok := an.Unparen(ex).(*ast.BinaryExpr)
+					return ok && (be.Op == token.EQL || be.Op == token.NEQ) && an.ObjOf(info, be.X) == param && isNilIdent(info, be.Y)
+				}) {
+					be := an.Unparen(cd.(ast.Expr)).(*ast.BinaryExpr)
+					if hg.GuardedBy(r, cd, be.Op == token.EQL) {
+						nilOnly = true
+					}
+				}
+			}
+			out = append(out, helperRet{k, nilOnly})
+		}
+		return out, len(out) > 0
+	}
 	runs := g.FindAtoms(func(a ast.Node) bool { return callsMethodOf(info, a, an.PkgDistsys, "MPCalContext", "Run") })
 	if len(runs) != 1 {
 		c.Lost("RunArchetype:Run", "expected one ctx.Run() call, found %d", len(runs))
@@ -59,6 +111,7 @@ func runFDExitState(c *core.Ctx) {
 	}
 	c.Check(okAlive, "RunArchetype:alive-before-Run", run.Pos(), "setState(alive) precedes ctx.Run()", "the archetype is not marked alive before it runs: detectors would keep aborting (uninitialized) or report it failed while it runs")
 	errVar := namedResult(fn, 0)
+	errVarObj = errVar
 	// normal exits
 	isFinal := func(a ast.Node) bool {
 		call, ok := a.(*ast.CallExpr)
@@ -66,7 +119,18 @@ func runFDExitState(c *core.Ctx) {
 			return false
 		}
 		o := an.ObjOf(info, call.Args[1])
-		return o == failed || o == finished
+		if o == failed || o == finished {
+			return true
+		}
+		if rets, ok := helperReturns(call.Args[1]); ok {
+			for _, r := range rets {
+				if r.st != failed && r.st != finished {
+					return false
+				}
+			}
+			return true
+		}
+		return false
 	}
 	okExit, _ := g.MustPass(run, isFinal, nil)
 	if !okExit {
@@ -121,6 +185,34 @@ func runFDExitState(c *core.Ctx) {
 			}
 		}
 		okFin = okFin && guarded
+	}
+	// setState(helper(err)): every `return finished` of the helper is under err == nil (or the call itself is)
+	for _, a := range g.FindAtoms(func(a ast.Node) bool {
+		call, ok := a.(*ast.CallExpr)
+		return ok && an.IsMethodNamed(an.CalleeFunc(info, call), an.PkgResources, "Monitor", "setState") && len(call.Args) == 2
+	}) {
+		rets, ok := helperReturns(a.(*ast.CallExpr).Args[1])
+		if !ok {
+			continue
+		}
+		callGuarded := false
+		for _, cd := range g.CondAtoms(func(ex ast.Expr) bool {
+			be, ok := an.Unparen(ex).(*ast.BinaryExpr)
+			return ok && (be.Op == token.EQL || be.Op == token.NEQ) && an.ObjOf(info, be.X) == errVar && isNilIdent(info, be.Y)
+		}) {
+			be := an.Unparen(cd.(ast.Expr)).(*ast.BinaryExpr)
+			if g.GuardedBy(a, cd, be.Op == token.EQL) {
+				callGuarded = true
+			}
+		}
+		for _, r := range rets {
+			if r.st == finished {
+				if len(setStateWith(g, finished)) == 0 {
+					okFin = true
+				}
+				okFin = okFin && (r.nilOnly || callGuarded)
+			}
+		}
 	}
 	c.Check(okFin, "RunArchetype:finished-iff-nil-error", fn.Pos(), "finished is stored only when Run returned nil", "finished is stored although Run returned an error (or never): an archetype that crashed with an error is reported as a normal termination")
 	// deferred recover
